@@ -85,5 +85,27 @@ FlatIsFamilyFree(P) == LET F == Flat(P) IN
 FlatIsIdempotent(P) == LET F == Flat(P) IN
   Inline(P, F.page, 1, <<>>, FamFuel) = F.page
 
+\* An included template (a PARTIAL) is a family of its own, whatever stands in it - component tags with {% block %}
+\* tags inside their fills included - and wherever the {% include %} stands (in a page family, in the family of a
+\* component template, inside a fill, in another partial): its blocks are never resolved against the overrides of
+\* the including family.  So the NAMES of the blocks of a template that is only ever included are irrelevant:
+\* renaming all of them (here: away from every name of the program) leaves Flat(P) unchanged.
+RECURSIVE RenameBlocks(_, _)
+RenameBlocks(nodes, i) ==
+  IF i > Len(nodes) THEN <<>>
+  ELSE LET n == nodes[i]
+           m == IF n.t = "block" THEN [n EXCEPT !.name = n.name \o "~", !.a = RenameBlocks(n.a, 1)]
+                ELSE IF "b" \in DOMAIN n /\ n.t = "if"
+                THEN [n EXCEPT !.a = RenameBlocks(n.a, 1), !.b = RenameBlocks(n.b, 1)]
+                ELSE IF "a" \in DOMAIN n THEN [n EXCEPT !.a = RenameBlocks(n.a, 1)]
+                ELSE n
+       IN <<m>> \o RenameBlocks(nodes, i + 1)
+IsBaseTpl(P, name) == P.pext = name \/ \E c \in 1..Len(P.comps) : P.comps[c].ext = name
+RenamedPartials(P) ==
+  [P EXCEPT !.tpls = [k \in 1..Len(P.tpls) |->
+      IF IsBaseTpl(P, P.tpls[k].name) THEN P.tpls[k] ELSE [P.tpls[k] EXCEPT !.a = RenameBlocks(P.tpls[k].a, 1)]]]
+PartialBlockNamesIrrelevant(P) == LET F == Flat(P)  G == Flat(RenamedPartials(P)) IN
+  F.page = G.page /\ F.comps = G.comps
+
 RunFamily(P) == Run(Flat(P))
 =============================================================================
